@@ -807,3 +807,75 @@ def micro_programs():
             out.append(Prog(name, lines, dict(template=tmpl, bsizes=bs)))
             k += 1
     return out
+
+
+# ---------------------------------------------------------------------------------------------- boundary-maximal programs
+def maximal_programs():
+    """conforming files that sit exactly AT every numeric limit (25 lines, 4 parameters, 5 variables, 5 functions,
+    80 columns) and use continuation lines; identifiers are slots"""
+    out = []
+
+    def ids(n, ln=3):
+        g = Gen(1000 + n)
+        return [g.ident() for _ in range(n)]
+    # 1. one function: 4 parameters, 5 variables, exactly 25 body lines, one statement of exactly 80 columns
+    a, b, c, d, v1, v2, v3, v4, v5 = [Slot("id", x) for x in ("aa", "bb", "cc", "dd", "va", "vb", "vc", "vd", "ve")]
+    name = "mx1.c"
+    L = header_lines(name) + [Line([""], "blank")]
+    L.append(Line(["int\t", Slot("fname", "compute"), "(int ", a, ", int ", b, ", char *", c, ", long ", d, ")"], "func_sig", 0, 0))
+    L.append(Line(["{"], "func_open", 0, 0))
+    for v in (v1, v2, v3, v4, v5):
+        L.append(Line(["\tint\t", v, ";"], "decl", 1, 0, var=v))
+    L.append(Line([""], "blank_decl", 0, 0))
+    body = []
+    for v, src in zip((v1, v2, v3, v4, v5), (a, b, a, b, a)):
+        body.append(Line(["\t", v, " = ", src, ";"], "stmt", 1, 0, stmt="assign"))
+    body.append(Line(["\twhile (", v1, " < ", v2, ")"], "ctrl", 1, 0, kw="while"))
+    body.append(Line(["\t{"], "lbrace", 1, 0))
+    body.append(Line(["\t\tif (", v3, " == ", v4, ")"], "ctrl", 2, 0, kw="if"))
+    body.append(Line(["\t\t\tbreak ;"], "stmt", 3, 0, stmt="break"))
+    body.append(Line(["\t\t", v1, "++;"], "stmt", 2, 0, stmt="incdec"))
+    body.append(Line(["\t}"], "rbrace", 1, 0))
+    body.append(Line(["\tputs(", c, ");"], "stmt", 1, 0, stmt="call"))
+    pad = Slot("id", "x" * (80 - 4 - len("vb = 1 + ;")))
+    body.append(Line(["\t", v2, " = 1 + ", pad, ";"], "stmt", 1, 0, stmt="assign"))
+    body.append(Line(["\tfoo(", v1, ","], "stmt", 1, 0, stmt="call"))
+    body.append(Line(["\t\t", v2, ","], "cont", 2, 0))
+    body.append(Line(["\t\t", v3, ");"], "cont", 2, 0))
+    body.append(Line(["\tif (", v4, " > 0"], "ctrl", 1, 0, kw="if"))
+    body.append(Line(["\t\t&& ", v5, " < 9)"], "cont", 2, 0))
+    body.append(Line(["\t\t", v5, " = 2;"], "stmt", 2, 0, stmt="assign"))
+    while len(body) > 25 - 6 - 1:
+        del body[0]
+    while len(body) < 25 - 6 - 1:
+        body.append(Line(["\t", v3, " += ", d, ";"], "stmt", 1, 0, stmt="opassign"))
+    body.append(Line(["\treturn (", v5, ");"], "stmt", 1, 0, stmt="return"))
+    assert 6 + len(body) == 25, len(body)
+    L += body + [Line(["}"], "func_close", 0, 0)]
+    out.append(Prog(name, L, dict(nfuncs=1, maximal="25 lines / 4 params / 5 vars / 80 columns / continuation lines")))
+    # 2. exactly five functions, each with the maximum of 4 parameters
+    name = "mx2.c"
+    L = header_lines(name) + [Line([""], "blank")]
+    for i in range(5):
+        if i:
+            L.append(Line([""], "blank"))
+        p = [Slot("id", "p%d%s" % (i, ch)) for ch in "abcd"]
+        f = Slot("fname", "fun%c" % "abcde"[i])
+        L.append(Line([("static " if i % 2 else "") + "int\t", f, "(int ", p[0], ", int ", p[1], ", int ", p[2], ", int ", p[3], ")"], "func_sig", 0, i))
+        L.append(Line(["{"], "func_open", 0, i))
+        L.append(Line(["\treturn (", p[0], " + ", p[1], " + ", p[2], " + ", p[3], ");"], "stmt", 1, i, stmt="return"))
+        L.append(Line(["}"], "func_close", 0, i))
+    out.append(Prog(name, L, dict(nfuncs=5, maximal="5 functions x 4 params")))
+    # 3. header with four-parameter prototypes and an 80-column prototype line
+    name = "mx3.h"
+    L = header_lines(name) + [Line([""], "blank"), Line(["#ifndef MX3_H"], "guard_ifndef"), Line(["# define MX3_H"], "guard_define"), Line([""], "blank")]
+    q = [Slot("id", x) for x in ("pa", "pb", "pc", "pd")]
+    L.append(Line(["int\t\t", Slot("fname", "first"), "(int ", q[0], ", int ", q[1], ", int ", q[2], ", int ", q[3], ");"], "proto"))
+    n = 1
+    while width("char\t*" + "y" * (n + 1) + "(void);") <= 80:
+        n += 1
+    longname = Slot("fname", "y" * n)
+    L.append(Line(["char\t*", longname, "(void);"], "proto"))
+    L += [Line([""], "blank"), Line(["#endif"], "guard_endif")]
+    out.append(Prog(name, L, dict(maximal="4-param prototypes, 80-column prototype")))
+    return out
